@@ -110,6 +110,7 @@ type frame struct {
 	panicking        bool
 	panic            interface{}
 	phitemps         []value // temporaries for parallel phi assignment
+	phiOverride      []value // values for the phis of the next block (merged region exit)
 }
 
 func (fr *frame) get(key ssa.Value) value {
@@ -712,6 +713,13 @@ func executePhis(fr *frame) []ssa.Instruction {
 		//
 		// See "the swap problem" in Briggs et al's "Practical Improvements
 		// to the Construction and Destruction of SSA Form" for discussion.
+		if fr.phiOverride != nil {
+			for i, phi := range phis {
+				fr.env[phi.(*ssa.Phi)] = fr.phiOverride[i]
+			}
+			fr.phiOverride = nil
+			return nonPhis
+		}
 		predIndex := slices.Index(fr.block.Preds, fr.prevBlock)
 		fr.phitemps = fr.phitemps[:0]
 		for _, phi := range phis {
